@@ -314,6 +314,9 @@ def _r6(db, rep):
     _silent_write_announced(db, r7)
     r8 = rep.rule('r8', 'TRANSLATIONS-PRESENT: the translations of an operation exist only after it was executed; every dereference of them is dominated by a non-null test (a document can be attached to a pictogram that was never executed), and such a pictogram is not reported as done', 3)
     _translations_guard(db, r8)
+    r10 = rep.rule('r10', 'HASH-REFRESHED: src::Handle::UpdateHashes recomputes the core hash on every path on which the handle has a source: the core hash is what the outdated mechanism compares, and it is not a function of the full hash '
+                          '(moving a text between two fields of a constituent keeps the full hash and changes the core hash)', 1)
+    _hash_refreshed(db, r10)
     r9 = rep.rule('r9', 'CELL-FREE: a pictogram is put only into a grid cell that was computed as free (ClosestFreePos / ChildPosFor) or whose occupancy was examined on the way: two pictograms never end up sharing a cell, none loses its cell to another', 2)
     _cell_free(db, r9)
     r6 = rep.rule('r6', 'HANDLE-ACCESS / LOAD-PARENT: the raw source pointer of a handle is read only inside ossSourceFacet; LoadParent refuses exactly the connections that are self-connections, duplicates or close a loop of any length (the parent relation of a loaded document is acyclic)', 2)
@@ -548,3 +551,44 @@ def _cell_free(db, r9):
                              '(serialising the schema then throws bad_optional_access)' % (c.get('txt') or '')[:60])
     if not n_sites:
         r9.broken('no call of ossGridFacet::SetPosFor found')
+
+
+def _hash_refreshed(db, r10):
+    from engine.cfgq import enumerate_paths, normalise_cond, success_exits
+    f = db.fn('ccl::src::Handle::UpdateHashes', required=False)
+    if f is None or not f.has_cfg():
+        r10.broken('anchor vanished: src::Handle::UpdateHashes')
+        return
+
+    def member(n, name):
+        n = f.strip(n)
+        return n is not None and n['k'] == 'MemberExpr' and n.get('member') == name
+    writes = [f.position_of(b) for b in f.walk() if b['k'] == 'BinaryOperator' and b.get('op') == '=' and member(f.children(b)[0], 'coreHash')]
+    writes += [f.position_of(c) for c in f.calls() if c['k'] == 'CXXOperatorCallExpr' and c.get('op') == '=' and c.get('args') and member(f.stmts[c['args'][0]], 'coreHash')]
+    writes = [p for p in writes if p is not None]
+    if not writes:
+        r10.violation('UpdateHashes', '%s:%d' % (f.file, f.line), 'the core hash is never recomputed')
+        return
+    bad = None
+    for ex, _w in success_exits(f, failure_literals=()):
+        for path in enumerate_paths(f, f.graph()[1], [ex], avoid=writes, limit=100):
+            no_source = False
+            for cond, pol in path:
+                c2, p2 = normalise_cond(f, cond, pol)
+                if c2 is None:
+                    continue
+                kids = [f.strip(x) for x in (f.children(c2) if c2['k'] == 'BinaryOperator' else [f.stmts[a] for a in c2.get('args', [])])] if c2.get('op') in ('==', '!=') else []
+                if len(kids) == 2 and any(x is not None and x['k'] in ('CXXNullPtrLiteralExpr', 'GNUNullExpr') for x in kids) and any(x is not None and x['k'] == 'MemberExpr' and x.get('member') == 'src' for x in kids):
+                    if (c2['op'] == '==') == p2:
+                        no_source = True
+                elif c2['k'] == 'MemberExpr' and c2.get('member') == 'src' and not p2:
+                    no_source = True
+            if not no_source:
+                bad = [((c.get('txt') or '')[:40], p) for c, p in path]
+                break
+        if bad:
+            break
+    if bad is not None:
+        r10.violation('UpdateHashes', '%s:%d' % (f.file, f.line), 'a path with a source leaves the core hash as it was (decisions: %s): the outdated mechanism compares core hashes, so an announced change of the formal content that keeps the other hash goes unnoticed and the operation built on the source stays done' % bad)
+    else:
+        r10.ok('UpdateHashes', 'the core hash is recomputed on every path that has a source', '%s:%d' % (f.file, f.line))
